@@ -86,3 +86,8 @@ Proof.
     apply (flat_map_ext_in _ _ (in_width size) vals Hvals). intros v Hv. apply swapped_be; assumption.
 Qed.
 Print Assumptions array_bytes.
+
+(* the block counts as exactly one result item, also for an empty array in the non-native order (observation 15, fixed) *)
+Theorem array_counts_once native_le fmt size vals : snd (array_binary native_le fmt size vals) = 1.
+Proof. unfold array_binary. destruct (fmt =? (if native_le then 2 else 1)); reflexivity. Qed.
+Print Assumptions array_counts_once.
